@@ -250,22 +250,32 @@ Proof.
 Qed.
 
 (* ------------------------------------------------------------------ *)
+(* the divisor guard: identity on non-zero factors *)
+Definition guard_ok (g : R -> R) : Prop := forall f, f <> 0 -> g f = f.
+Lemma guard_ok_id : guard_ok (fun f => f).
+Proof. intros f _. reflexivity. Qed.
+Lemma guard_ok_fix : guard_ok rguard_fix.
+Proof.
+  intros f H. unfold rguard_fix, ris0. destruct (Req_EM_T f 0); [contradiction | ring].
+Qed.
+
+(* ------------------------------------------------------------------ *)
 (* unfolding equations of the real-number run                           *)
-Lemma R_run_nil : forall strip cz temps e last,
-  R_run strip cz [] temps e last =
+Lemma R_run_nil : forall g strip cz temps e last,
+  R_run g strip cz [] temps e last =
   match last with None => Raised | Some p => Done p (if strip then Some e else None) end.
 Proof. reflexivity. Qed.
 
-Lemma R_run_pre : forall strip cz p u rest temps e last,
-  R_run strip cz (IPre p u :: rest) temps e last =
+Lemma R_run_pre : forall g strip cz p u rest temps e last,
+  R_run g strip cz (IPre p u :: rest) temps e last =
   match tget R p temps with
   | None => Raised
-  | Some x => R_run strip cz rest (tset R p (u x) temps) e last
+  | Some x => R_run g strip cz rest (tset R p (u x) temps) e last
   end.
 Proof. reflexivity. Qed.
 
-Lemma R_run_pair : forall strip cz p l r b rest temps e last,
-  R_run strip cz (IPair p l r b :: rest) temps e last =
+Lemma R_run_pair : forall g strip cz p l r b rest temps e last,
+  R_run g strip cz (IPair p l r b :: rest) temps e last =
   match tpop R l temps with
   | None => Raised
   | Some (xl, t1) =>
@@ -274,10 +284,10 @@ Lemma R_run_pair : forall strip cz p l r b rest temps e last,
       | Some (xr, t2) =>
           if strip then
             if cz && ris0 (R_maxabs (b xl xr)) then ZeroExit
-            else R_run strip cz rest (tset R p (R_divs (b xl xr) (R_maxabs (b xl xr))) t2)
+            else R_run g strip cz rest (tset R p (R_divs (b xl xr) (g (R_maxabs (b xl xr)))) t2)
                        (e + log10 (R_maxabs (b xl xr)))
-                       (Some (R_divs (b xl xr) (R_maxabs (b xl xr))))
-          else R_run strip cz rest (tset R p (b xl xr) t2) e (Some (b xl xr))
+                       (Some (R_divs (b xl xr) (g (R_maxabs (b xl xr)))))
+          else R_run g strip cz rest (tset R p (b xl xr) t2) e (Some (b xl xr))
       end
   end.
 Proof. reflexivity. Qed.
@@ -291,16 +301,17 @@ Definition last_ok (sc : nat -> R) (ks : list nat) (lp ls : option (list R)) : P
 
 (* the invariant: every live register of the plain run is the corresponding register of
    the stripped run times a positive scale, and 10^exponent is the product of the scales *)
-Lemma run_rel : forall prog sc tp ts e lp ls m e' cz ep,
+Lemma run_rel : forall g g' prog sc tp ts e lp ls m e' cz ep,
+  guard_ok g ->
   Forall homog_instr prog ->
   wf_prog R prog (keys ts) = true ->
   rel sc tp ts -> (forall k, 0 < sc k) ->
   pow10 e = prodk sc (keys ts) ->
   last_ok sc (keys ts) lp ls ->
-  R_run true true prog ts e ls = Done m (Some e') ->
-  R_run false cz prog tp ep lp = Done (R_scale (pow10 e') m) None.
+  R_run g true true prog ts e ls = Done m (Some e') ->
+  R_run g' false cz prog tp ep lp = Done (R_scale (pow10 e') m) None.
 Proof.
-  induction prog as [|i prog IH]; intros sc tp ts e lp ls m e' cz ep Hh Hwf Hrel Hpos He Hlast Hrun.
+  intros g g' prog. induction prog as [|i prog IH]; intros sc tp ts e lp ls m e' cz ep Hg Hh Hwf Hrel Hpos He Hlast Hrun.
   - rewrite R_run_nil in *. cbn [wf_prog] in Hwf. apply Nat.eqb_eq in Hwf.
     destruct ls as [y|]; [|discriminate]. inversion Hrun; subst y e'.
     destruct lp as [x|]; [|destruct Hlast].
@@ -337,6 +348,7 @@ Proof.
       { unfold ris0 in Z. destruct (Req_EM_T f 0); [discriminate | assumption]. }
       assert (Hfp : 0 < f).
       { pose proof (R_maxabs_nonneg pa). fold f in H. lra. }
+      rewrite (Hg f Hf0) in Hrun.
       cbn [homog_instr] in Hi. rewrite Hi.
       set (v := sc l * sc r * f).
       assert (Hv : 0 < v).
@@ -368,14 +380,15 @@ Qed.
 (* strip_value: if the stripped run with the explicit zero check finishes normally
    (i.e. no factor was 0), the plain run of the same program on the same arrays finishes
    and returns mantissa * 10^exponent. *)
-Lemma strip_value_temps : forall prog temps m e cz ep,
+Lemma strip_value_temps : forall g g' prog temps m e cz ep,
+  guard_ok g ->
   Forall homog_instr prog ->
   wf_prog R prog (keys temps) = true ->
-  R_run true true prog temps 0 None = Done m (Some e) ->
-  R_run false cz prog temps ep None = Done (R_scale (pow10 e) m) None.
+  R_run g true true prog temps 0 None = Done m (Some e) ->
+  R_run g' false cz prog temps ep None = Done (R_scale (pow10 e) m) None.
 Proof.
-  intros prog temps m e cz ep Hh Hwf Hrun.
-  eapply run_rel with (sc := fun _ => 1) (ts := temps) (e := 0); try eassumption.
+  intros g g' prog temps m e cz ep Hg Hh Hwf Hrun.
+  eapply run_rel with (g := g) (sc := fun _ => 1) (ts := temps) (e := 0); try eassumption.
   - apply rel_refl_ones.
   - intro. lra.
   - rewrite pow10_0, prodk_ones. reflexivity.
@@ -384,11 +397,11 @@ Qed.
 
 (* check_zero only matters when a factor is 0: a run that ends normally with the check
    ends identically without it *)
-Lemma cz_irrelevant : forall prog temps e last m e',
-  R_run true true prog temps e last = Done m e' ->
-  R_run true false prog temps e last = Done m e'.
+Lemma cz_irrelevant : forall g prog temps e last m e',
+  R_run g true true prog temps e last = Done m e' ->
+  R_run g true false prog temps e last = Done m e'.
 Proof.
-  induction prog as [|i prog IH]; intros temps e last m e' H.
+  intros g prog. induction prog as [|i prog IH]; intros temps e last m e' H.
   - rewrite R_run_nil in *. exact H.
   - destruct i as [p u | p l r b].
     + rewrite R_run_pre in *. destruct (tget R p temps); [apply IH; exact H | discriminate].
@@ -400,11 +413,11 @@ Proof.
 Qed.
 
 (* conversely, if every recorded factor is non-zero the check never fires *)
-Lemma cz_never_fires : forall prog temps e last,
-  Forall (fun t => fst t <> 0) (R_trace prog temps e) ->
-  R_run true true prog temps e last = R_run true false prog temps e last.
+Lemma cz_never_fires : forall g prog temps e last,
+  Forall (fun t => fst t <> 0) (R_trace g prog temps e) ->
+  R_run g true true prog temps e last = R_run g true false prog temps e last.
 Proof.
-  induction prog as [|i prog IH]; intros temps e last H.
+  intros g prog. induction prog as [|i prog IH]; intros temps e last H.
   - reflexivity.
   - destruct i as [p u | p l r b].
     + rewrite !R_run_pre. unfold R_trace in H. cbn [trace] in H.
@@ -426,41 +439,45 @@ Proof.
   - f_equal. apply IH.
 Qed.
 
-Definition R_core (strip cz : bool) (prog : list (instr R)) (arrays : list (list R)) :=
-  contract_core R R 0 Rdiv Rabs Rmax ris0 0 log10 Rplus strip cz prog arrays.
+Definition R_core (g : R -> R) (strip cz : bool) (prog : list (instr R)) (arrays : list (list R)) :=
+  contract_core R R 0 Rdiv Rabs Rmax ris0 g 0 log10 Rplus strip cz prog arrays.
 
-Lemma strip_value : forall prog arrays m e,
+Lemma strip_value : forall g g' prog arrays m e,
+  guard_ok g ->
   Forall homog_instr prog ->
   wf_prog R prog (seq 0 (length arrays)) = true ->
   Forall (fun t => fst t <> 0)
-         (R_trace prog (combine (seq 0 (length arrays)) arrays) 0) ->
-  R_core true false prog arrays = Done m (Some e) ->
-  R_core false false prog arrays = Done (R_scale (pow10 e) m) None.
+         (R_trace g prog (combine (seq 0 (length arrays)) arrays) 0) ->
+  R_core g true false prog arrays = Done m (Some e) ->
+  R_core g' false false prog arrays = Done (R_scale (pow10 e) m) None.
 Proof.
-  intros prog arrays m e Hh Hwf Hnz Hrun. unfold R_core, contract_core in *.
-  fold R_run in *. rewrite <- cz_never_fires in Hrun by exact Hnz.
-  apply strip_value_temps; try assumption.
+  intros g g' prog arrays m e Hg Hh Hwf Hnz Hrun. unfold R_core, contract_core in *.
+  fold (R_run g) in *. fold (R_run g'). rewrite <- cz_never_fires in Hrun by exact Hnz.
+  apply strip_value_temps with (g := g); try assumption.
   rewrite keys_combine_seq. exact Hwf.
 Qed.
 
-Lemma strip_value_cz : forall prog arrays m e,
+Lemma strip_value_cz : forall g g' prog arrays m e,
+  guard_ok g ->
   Forall homog_instr prog ->
   wf_prog R prog (seq 0 (length arrays)) = true ->
-  R_core true true prog arrays = Done m (Some e) ->
-  R_core false false prog arrays = Done (R_scale (pow10 e) m) None /\
-  R_core true false prog arrays = Done m (Some e).
+  R_core g true true prog arrays = Done m (Some e) ->
+  R_core g' false false prog arrays = Done (R_scale (pow10 e) m) None /\
+  R_core g true false prog arrays = Done m (Some e).
 Proof.
-  intros prog arrays m e Hh Hwf Hrun. unfold R_core, contract_core in *. fold R_run in *.
+  intros g g' prog arrays m e Hg Hh Hwf Hrun. unfold R_core, contract_core in *.
+  fold (R_run g) in *. fold (R_run g').
   split.
-  - apply strip_value_temps; try assumption. rewrite keys_combine_seq. exact Hwf.
+  - apply strip_value_temps with (g := g); try assumption. rewrite keys_combine_seq. exact Hwf.
   - apply cz_irrelevant. exact Hrun.
 Qed.
 
 (* ------------------------------------------------------------------ *)
 (* mantissa_bounded                                                     *)
-Lemma trace_mantissa_one : forall prog temps e,
-  Forall (fun t => fst t <> 0 -> snd (snd t) = 1) (R_trace prog temps e).
+Lemma trace_mantissa_one : forall g prog temps e, guard_ok g ->
+  Forall (fun t => fst t <> 0 -> snd (snd t) = 1) (R_trace g prog temps e).
 Proof.
+  intros g prog temps e Hg. revert temps e.
   induction prog as [|i prog IH]; intros temps e; unfold R_trace in *; cbn [trace].
   - constructor.
   - destruct i as [p u | p l r b].
@@ -468,17 +485,17 @@ Proof.
     + destruct (tpop R l temps) as [[xl t1]|]; [|constructor].
       destruct (tpop R r t1) as [[xr t2]|]; [|constructor].
       constructor; [|apply IH].
-      cbn [fst snd]. intro H. apply R_maxabs_divs. exact H.
+      cbn [fst snd]. intro H. rewrite (Hg _ H). apply R_maxabs_divs. exact H.
 Qed.
 
 (* the exponent recorded after each step is the running sum of log10(factor) *)
 Fixpoint running_sums (e : R) (fs : list R) : list R :=
   match fs with [] => [] | f :: r => (e + log10 f) :: running_sums (e + log10 f) r end.
-Lemma trace_exponent_sum : forall prog temps e,
-  map (fun t => fst (snd t)) (R_trace prog temps e) =
-  running_sums e (map fst (R_trace prog temps e)).
+Lemma trace_exponent_sum : forall g prog temps e,
+  map (fun t => fst (snd t)) (R_trace g prog temps e) =
+  running_sums e (map fst (R_trace g prog temps e)).
 Proof.
-  induction prog as [|i prog IH]; intros temps e; unfold R_trace in *; cbn [trace].
+  intros g prog. induction prog as [|i prog IH]; intros temps e; unfold R_trace in *; cbn [trace].
   - reflexivity.
   - destruct i as [p u | p l r b].
     + destruct (tget R p temps); [apply IH | reflexivity].
@@ -594,7 +611,7 @@ Proof.
                        (R_mscale_r ym (pow10 (ye - Rmax xe ye)))) (pow10 (Rmax xe ye)) =
     R_madd (R_mscale_r xm (pow10 xe)) (R_mscale_r ym (pow10 ye))).
   { intros. rewrite R_mscale_r_madd, !R_mscale_r_mul, !pow10_diff. reflexivity. }
-  destruct x as [xm|xm xe], y as [ym|ym ye]; unfold R_add, add_maybe; cbn [R_value].
+  destruct x as [xm|xm xe], y as [ym|ym ye]; unfold R_add, add_maybe, rnever; cbn [R_value].
   - reflexivity.
   - fold R_mscale_r R_madd. rewrite G, pow10_0, R_mscale_r_1. reflexivity.
   - fold R_mscale_r R_madd. rewrite G, pow10_0, R_mscale_r_1. reflexivity.
@@ -629,7 +646,7 @@ Definition vgroup (keyed : list (nat * mant R)) : list (nat * mant R) :=
 Definition kvalue (ks : nat * sval R R) : nat * mant R := (fst ks, R_value (snd ks)).
 
 Lemma chunk_add_value : forall k s chunks,
-  map kvalue (chunk_add R R Rplus Rmult 0 Rmax (fun a b => pow10 (a - b)) k s chunks) =
+  map kvalue (chunk_add R R Rplus Rmult rnever 0 Rmax (fun a b => pow10 (a - b)) k s chunks) =
   vchunk_add k (R_value s) (map kvalue chunks).
 Proof.
   intros k s chunks. induction chunks as [|[k' c] chunks IH]; cbn [chunk_add map vchunk_add].
@@ -646,7 +663,7 @@ Proof.
   intro keyed. unfold R_group, group_chunks, vgroup.
   assert (G : forall acc,
     map kvalue (fold_left (fun chunks ks =>
-       chunk_add R R Rplus Rmult 0 Rmax (fun a b => pow10 (a - b)) (fst ks) (snd ks) chunks) keyed acc) =
+       chunk_add R R Rplus Rmult rnever 0 Rmax (fun a b => pow10 (a - b)) (fst ks) (snd ks) chunks) keyed acc) =
     fold_left (fun chunks kv => vchunk_add (fst kv) (snd kv) chunks) (map kvalue keyed) (map kvalue acc)).
   { induction keyed as [|ks keyed IH]; intro acc; cbn [fold_left map].
     - reflexivity.
@@ -684,7 +701,7 @@ Proof.
     pose proof (exps_of_strip _ _ X) as Hs. clear X EC.
     rewrite map_map. apply map_ext_in. intros [k c] Hin. cbn [fst snd].
     rewrite Forall_forall in Hs. destruct (Hs _ Hin) as [m [e E]]. cbn [snd] in E. subst c.
-    unfold kvalue. cbn [fst snd R_value]. fold R_mscale_r.
+    unfold kvalue, rnever. cbn [fst snd R_value]. fold R_mscale_r.
     rewrite R_mscale_r_mul, pow10_diff. reflexivity.
 Qed.
 
